@@ -220,9 +220,27 @@ class Analyzer:
                 return True
         return False
 
+    def _self_attr_access(self, c):
+        """the attribute name when the call reads an attribute of self by name: getattr(self, 'n'[, d]),
+        self.__dict__.setdefault('n', d), self.__dict__.get('n'[, d]), vars(self).get / setdefault."""
+        f = c.func
+        if isinstance(f, ast.Name) and f.id == 'getattr' and len(c.args) >= 2 and isinstance(c.args[0], ast.Name) \
+                and c.args[0].id == self.selfname and isinstance(c.args[1], ast.Constant):
+            return str(c.args[1].value)
+        if isinstance(f, ast.Attribute) and f.attr in ('setdefault', 'get') and c.args and isinstance(c.args[0], ast.Constant) \
+                and unparse(f.value) in ('%s.__dict__' % self.selfname, 'vars(%s)' % self.selfname):
+            return str(c.args[0].value)
+        return None
+
     def _call(self, c, env, res):
         f = c.func
         d = dotted(f)
+        nm = self._self_attr_access(c)
+        if nm is not None:
+            out = {'A:self.' + nm}
+            for a in c.args[2:] if isinstance(f, ast.Name) else c.args[1:]:
+                out |= {t for t in self.tok(a, env, res) if t != 'C' and not t.startswith('F@')}
+            return out
         argtoks = [self.tok(a, env, res) for a in c.args] + [self.tok(k.value, env, res) for k in c.keywords]
         if isinstance(f, ast.Attribute):
             recv = f.value
